@@ -115,7 +115,8 @@ static std::string opRegNet(Args& A, Session* S){
 		LabeledData<RealVector, RealVector> other = createLabeledDataFromRange(X, L, n);
 		other.repartition(parts[p]);
 		KernelExpansion<RealVector> m2; trainer.train(m2, other);
-		if(!closeMat(alpha, m2.alpha(), 1e-9) || !closeVec(b, m2.offset(), 1e-12)) o.fail("batch-dependent");
+		// the label mean differs by rounding between partitions; the ill-conditioned branch amplifies that by up to 1e5 * n
+		if(!closeMat(alpha, m2.alpha(), betaInv / maxDiag < 1.e-5 ? 1e-5 : 1e-9) || !closeVec(b, m2.offset(), 1e-12)) o.fail("batch-dependent");
 	}
 	return o.line("ok", inexact);
 }
